@@ -15,5 +15,6 @@ var registry = map[string]simkit.World{
 	"C04": fsmworld.C04{},
 	"C05": fsmworld.C05{},
 	"C06": fsmworld.C06{},
+	"C07": fsmworld.C07{},
 	"C20": archiveworld.World{},
 }
